@@ -46,6 +46,8 @@ class Env:
         self.mask = t(rng.integers(0, 2, size=(self.N, 1) + sh).astype(np.float32))
         self.mask[..., 0] = 1
         self.bmask = self.mask > 0
+        self.mask_b = t(rng.integers(0, 2, size=(self.N, 1) + sh).astype(np.float32))  # drawn last-but-independent of mask
+        self.mask_b[..., 1] = 1
         self.flow = t(rng.normal(size=(self.N, D) + sh) * 0.05)
         self.flow_b = t(rng.normal(size=(self.N, D) + sh) * 0.05)
         self.flow64 = t(rng.normal(size=(self.N, D) + sh) * 0.05, torch.float64)
